@@ -73,6 +73,13 @@ func (r *Run) collect(sweeps []Sweep) {
 			continue
 		}
 		fn := e.lookupFunc(key)
+		if fn == nil && fc.Flags["funcfield"] != "" {
+			// assumed contract of a function stored in a struct field: binds to the field
+			if contractMentions(fc, r.prop) && !e.funcFieldExists(key) {
+				r.addSynthetic(key+"#bound", "binding", "funcfield contract binds to a func-typed struct field", fmt.Sprintf("no such field for %s (contract at %s:%d)", key, fc.File, fc.Line))
+			}
+			continue
+		}
 		if fn == nil {
 			if contractMentions(fc, r.prop) {
 				r.addSynthetic(key+"#bound", "binding", "contract binds to a function in the current tree", fmt.Sprintf("no function %s (contract at %s:%d)", key, fc.File, fc.Line))
